@@ -838,6 +838,30 @@ func (env *Env) call(x ECall) TV {
 		}
 		return TV{T: Ite(Eq(v.T, IntLit(0)), MkIface(IntLit(int64(w.tagOf(v.Ty))), IntLit(0)), MkIface(IntLit(int64(w.tagOf(v.Ty))), v.T)),
 			Ty: types.NewInterfaceType(nil, nil)}
+	case "unbox":
+		// unbox(iface, "T"): the value of dynamic type T held by the interface
+		v := env.comp(x.Args[0])
+		lit, ok := x.Args[1].(ELit)
+		if !ok || lit.Kind != "string" || v.T == nil || v.T.Sort != SIface {
+			cfail("unbox(iface, \"type\")")
+		}
+		tn, _ := strconv.Unquote(lit.Val)
+		ty, err := w.resolveType(tn, env.pkg)
+		if err != nil {
+			cfail("%v", err)
+		}
+		if _, isPtr := types.Unalias(ty).Underlying().(*types.Pointer); isPtr {
+			return TV{T: IfRef(v.T), Ty: ty}
+		}
+		so := w.sortOf(ty)
+		if so == SStr {
+			return TV{T: App("unboxstr", SStr, IfRef(v.T)), Ty: ty}
+		}
+		if so == "" {
+			cfail("unbox of compound type")
+		}
+		w.boxSorts[so] = true
+		return TV{T: App("unbox!"+smtName(string(so)), so, IfRef(v.T)), Ty: ty}
 	case "wfi":
 		// wfi(x): the interface value holds a non-nil pointer
 		v := env.comp(x.Args[0])
